@@ -1,11 +1,13 @@
 #!/bin/bash
-# Offline setup: warm the Go build cache for every worker (normal and race builds).
+# Offline setup: warm the Go build cache for the worker of every claimed check
+# (normal and race builds). Downloads nothing.
 cd "$(dirname "$(readlink -f "$0")")" || exit 1
 export GOFLAGS=-mod=mod GOPROXY=off GOSUMDB=off GOTOOLCHAIN=local
 cp /repo/go.sum go.sum 2>/dev/null
 mkdir -p bin evidence replay
 rc=0
-for d in c[0-9][0-9]; do
+for id in $(jq -r '.checks[].property_id' MANIFEST.json); do
+  d=$(echo "$id" | tr 'C' 'c')
   [ -f "$d/main.go" ] || continue
   go build -tags verif -o "bin/$d" "./$d" || rc=1
   if [ -f "$d/.race" ]; then go build -race -tags verif -o "bin/$d.race" "./$d" || rc=1; fi
